@@ -37,10 +37,26 @@ func startWorker() (*worker, error) {
 	return &worker{cmd: cmd, in: in, out: bufio.NewReader(outp)}, nil
 }
 
-func (w *worker) stop() {
+// stop ends the worker: end of input lets it return from main (buffers and coverage counters of an
+// instrumented build are flushed); a worker that does not leave within 3 s is killed.
+func (w *worker) stop() { w.end(false) }
+
+// kill ends a worker in which a provider goroutine may still be running, at once.
+func (w *worker) kill() { w.end(true) }
+
+func (w *worker) end(now bool) {
 	w.in.Close()
+	done := make(chan struct{})
+	go func() { _ = w.cmd.Wait(); close(done) }()
+	if !now {
+		select {
+		case <-done:
+			return
+		case <-time.After(3 * time.Second):
+		}
+	}
 	_ = w.cmd.Process.Kill()
-	_ = w.cmd.Wait()
+	<-done
 }
 
 // do runs one cell in the worker; a worker that does not answer within cellTimeout is reported
@@ -130,7 +146,7 @@ func RunAll(cases []string) []string {
 					}
 					o, err := w.do(cases[i])
 					if err != nil {
-						w.stop()
+						w.kill()
 						w = nil
 						if attempt < 1 {
 							continue
@@ -140,7 +156,7 @@ func RunAll(cases []string) []string {
 					out[i] = o
 					if strings.Contains(o, " hang") || strings.Contains(o, " panic") {
 						// a goroutine of the provider may still be running: do not reuse the process
-						w.stop()
+						w.kill()
 						w = nil
 					}
 					break
